@@ -163,12 +163,28 @@ def d6(ctx, rep):
                                 for b in body2)
                     if swap2 and t.left.id == lv and members == {(rp, 'L'), (rp, 'R')}:
                         swaps.append(n)
+        # the same swap on a list that holds the two parents: `pair = [left_parent, right_parent]; if <left not in left_parent>: pair.reverse()`
+        for n in walk_no_nested(gc.node):
+            if isinstance(n, ast.If) and n not in swaps:
+                t = n.test
+                neg = False
+                while isinstance(t, ast.UnaryOp) and isinstance(t.op, ast.Not):
+                    t, neg = t.operand, not neg
+                if isinstance(t, ast.Compare) and len(t.ops) == 1 and isinstance(t.ops[0], (ast.In, ast.NotIn)) and isinstance(t.left, ast.Name) and t.left.id == lv:
+                    members = {(x.value.id, x.attr) for x in ast.walk(t.comparators[0]) if isinstance(x, ast.Attribute) and isinstance(x.value, ast.Name)}
+                    absent = isinstance(t.ops[0], ast.NotIn) != neg
+                    for body_, want in ((n.body if absent else n.orelse, {(lp, 'L'), (lp, 'R')}), (n.orelse if absent else n.body, {(rp, 'L'), (rp, 'R')})):
+                        for b in body_:
+                            if isinstance(b, ast.Expr) and isinstance(b.value, ast.Call) and call_name(b.value) == 'reverse' and isinstance(b.value.func.value, ast.Name) and members == want:
+                                d_ = single_def(gc.node, b.value.func.value.id)
+                                if isinstance(d_, (ast.List,)) and [getattr(x, 'id', None) for x in d_.elts] == [lp, rp]:
+                                    swaps.append(n)
         pst = [s_ for s_ in walk_no_nested(gc.node) if isinstance(s_, ast.Assign) and isinstance(s_.targets[0], ast.Attribute) and s_.targets[0].attr == 'parents']
         uses = [c for c in walk_no_nested(gc.node) if isinstance(c, ast.Call) and call_name(c) == 'get_conditional_uni']
         if swaps and all(s_.lineno > swaps[0].lineno for s_ in pst) and all(c.lineno > swaps[0].lineno for c in uses):
             rep.ok('D6.owner', gc, swaps[0], 'the parents are swapped when the (sorted) left node does not belong to the left parent, before they are used and stored',
                    construct='ownership of the left node')
-        elif lv is None or not pst:
+        elif lv is None or not pst or not (isinstance(pst[0].value, (ast.List, ast.Tuple)) and [getattr(x, 'id', None) for x in pst[0].value.elts] == [lp, rp]):
             rep.undecided('D6.owner', gc, gc.node.name, 'construction of the child edge not recognised', construct='ownership of the left node')
         else:
             rep.bad('D6.owner', gc, pst[0], 'the conditioned pair is named by sorting the two nodes, but the parents are stored in the order given: when the smaller node '
@@ -276,7 +292,11 @@ def d1(ctx, rep):
     ok = False
     if cu and sel and isinstance(cu[0].targets[0], ast.Tuple):
         lv, rv = (e.id for e in cu[0].targets[0].elts)
-        argsok = [getattr(a, 'id', None) for a in cu[0].value.args] == gc.params[2:4]
+        cargs = list(cu[0].value.args)
+        if len(cargs) == 1 and isinstance(cargs[0], ast.Starred) and isinstance(cargs[0].value, ast.Name):
+            d_ = single_def(gc.node, cargs[0].value.id)       # get_conditional_uni(*parents) with parents = [left_parent, right_parent]
+            cargs = list(d_.elts) if isinstance(d_, (ast.List, ast.Tuple)) else cargs
+        argsok = [getattr(a, 'id', None) for a in cargs] == gc.params[2:4]
         x = sel[0].args[0] if sel[0].args else None
         xd = single_def(gc.node, x.id) if isinstance(x, ast.Name) else x
         zips = [z for z in ast.walk(xd) if isinstance(z, ast.Call) and call_name(z) == 'zip'] if isinstance(xd, ast.AST) else []
@@ -287,7 +307,20 @@ def d1(ctx, rep):
         elif stack and isinstance(stack[0].args[0], (ast.Tuple, ast.List)):
             pair = [getattr(a, 'id', None) for a in stack[0].args[0].elts]
         ok = argsok and pair == [lv, rv]
-    if not (cu and sel):
+    if cu and sel and isinstance(cu[0].targets[0], ast.Name):
+        # pair = get_conditional_uni(left_parent, right_parent); select_copula(<rows of zip(*pair)>): both inputs, in the order returned
+        nm_ = cu[0].targets[0].id
+        x = sel[0].args[0] if sel[0].args else None
+        xd = single_def(gc.node, x.id) if isinstance(x, ast.Name) else x
+        star = [z for z in ast.walk(xd) if isinstance(z, ast.Call) and call_name(z) in ('zip', 'column_stack') and len(z.args) == 1
+                and ((isinstance(z.args[0], ast.Starred) and isinstance(z.args[0].value, ast.Name) and z.args[0].value.id == nm_) or
+                     (isinstance(z.args[0], ast.Name) and z.args[0].id == nm_))] if isinstance(xd, ast.AST) else []
+        argsok = [getattr(a, 'id', None) for a in cu[0].value.args] == gc.params[2:4]
+        if star and argsok:
+            rep.ok('D1.accessor', gc, sel[0], 'the copula of a child edge is selected on get_conditional_uni(left_parent, right_parent)', construct='child edge selection input')
+        else:
+            rep.undecided('D1.accessor', gc, sel[0], 'how the pair returned by get_conditional_uni reaches select_copula was not recognised', construct='child edge selection input')
+    elif not (cu and sel):
         rep.undecided('D1.accessor', gc, gc.node.name, 'how get_child_edge obtains the inputs of the new edge / selects its copula was not recognised', construct='child edge selection input')
     else:
         rep.check('D1.accessor', gc, sel[0] if sel else gc.node.name, ok, 'the copula of a child edge is selected on get_conditional_uni(left_parent, right_parent)',
@@ -302,7 +335,7 @@ def d1(ctx, rep):
             continue
         x = sel[0].args[0]
         cols = None
-        if isinstance(x, ast.Subscript) and is_self_attr(x.value, fn.self_name, 'u_matrix') and isinstance(x.slice, ast.Tuple) and isinstance(x.slice.elts[1], ast.Tuple):
+        if isinstance(x, ast.Subscript) and is_self_attr(x.value, fn.self_name, 'u_matrix') and isinstance(x.slice, ast.Tuple) and len(x.slice.elts) == 2 and isinstance(x.slice.elts[1], (ast.Tuple, ast.List)):
             cols = [ast.dump(e) for e in x.slice.elts[1].elts]
         a = mk[0].value.args
         nodes = []
@@ -321,6 +354,9 @@ def d1(ctx, rep):
             else:
                 nodes.append(ast.dump(e))
         ok = cols is not None and sorted(cols) == sorted(nodes)
+        if cols is None:
+            rep.undecided('D1.accessor', fn, sel[0], f'{clsn}: which columns `{short(x, 50)}` selects was not recognised', construct=f'{clsn} first tree columns')
+            continue
         rep.check('D1.accessor', fn, sel[0], ok, f'{clsn}: the copula is selected on the u_matrix columns of the edge\'s own two nodes',
                   f'{clsn}: the columns given to select_copula are not the two nodes of the edge being created', construct=f'{clsn} first tree columns')
 
@@ -585,7 +621,7 @@ def d3(ctx, rep):
     call = [s for s in walk_no_nested(tr.node) if isinstance(s, ast.Assign) and isinstance(s.value, ast.Call) and call_name(s.value) == 'get_likelihood'
             and isinstance(s.targets[0], ast.Tuple)]
     ok = False
-    if logs and call:
+    if logs and call and isinstance(call[0].targets[0].elts[0], ast.Name):
         vn = call[0].targets[0].elts[0].id
         ok = isinstance(logs[0].value.args[0], ast.Name) and logs[0].value.args[0].id == vn
     rep.check('D3.recursion', tr, logs[0] if logs else tr.node.name, ok, 'each edge contributes np.log(pair density)',
@@ -595,7 +631,9 @@ def d3(ctx, rep):
     rep.check('D3.recursion', tr, rets[0] if rets else tr.node.name, ok, 'returns (sum of the log values, next matrix)', 'the tree does not return the sum of its edges\' log values',
               construct='tree sum')
     # stores into the next matrix: [L, R] <- left value, [R, L] <- right value, rank 0
-    if call:
+    if call and not (len(call[0].targets[0].elts) == 3 and all(isinstance(e, ast.Name) for e in call[0].targets[0].elts)):
+        rep.undecided('D3.recursion', tr, call[0], 'how the three values returned by Edge.get_likelihood are bound was not recognised', construct='next matrix cells')
+    elif call:
         _v, lv, rv = (e.id for e in call[0].targets[0].elts)
         ev = None
         for s in walk_no_nested(tr.node):
